@@ -51,6 +51,11 @@ NEEDS = {
  "C08d_cmdsubst_interrupt_leaks_reader": "interactive shell with default SIGINT, and a command substitution whose subshell is killed by SIGINT",
  "C09d_move_fd_internal_leaks_on_failure": "the shell opens a descriptor for itself (`. file`, tty) while no descriptor >= 10 can be allocated (`ulimit -n 10`)",
  "C10d_errexit_skipped_without_command_name": "errexit on and a failing simple command without a command name (`a=$(false)`, `</nonexistent`)",
+ "C11d_wait_trap_runs_twice": "a trapped signal delivered while the `wait` built-in is blocking on a running job",
+ "C12d_set_current_accepts_finished_job": "a suspended job exists and `bg %n` names another job that has finished but is still in the table",
+ "C13d_cmdsubst_waits_before_reading": "a command substitution whose command writes more than the pipe holds (1024 bytes in the simulator) before exiting",
+ "C14d_heredoc_dash_counts_all_tabs": "a `<<-` here-document with a body line that contains a tab beyond its leading tabs",
+ "C15d_receiver_keeps_first_waker": "a Receiver polled once by one task, then awaited by another, before the value is sent",
  "C19c_append_after_truncate": "an O_APPEND descriptor kept open, written, the file truncated through another open, then written again",
 }
 for d in sorted(glob.glob('/verif/seeded/*/')):
